@@ -133,6 +133,38 @@ def build(rec: dict, obj: dict):
     return ens
 
 
+def apply_edits(o, ops: list, newobj: dict):
+    """Edit the SAME real object through public attributes, as the spec's Edit actions did on the recipe
+    (RetypeBond -> bond.btype, RetypeAtom -> element/atype/geom/label, MoveAtom -> coords/charges, Rename -> name)."""
+    import numpy as np
+    import molli as ml
+    from molli.chem.atom import Element, AtomType, AtomGeom
+    from molli.chem.bond import BondType
+    E = {e.symbol: e for e in Element}
+    moved = False
+    for op in ops:
+        if op["op"] == "bond":
+            o.bonds[op["i"] - 1].btype = BondType[op["bt"]]
+        elif op["op"] == "atom":
+            a = o.atoms[op["i"] - 1]
+            a.element, a.atype, a.geom, a.label = E[op["el"]], AtomType[op["at"]], AtomGeom[op["g"]], (op["lab"] or None)
+        elif op["op"] == "name":
+            o.name = op["n"]
+        elif op["op"] == "move":
+            moved = True
+        else:
+            raise AssertionError(f"unknown edit {op}")
+    if moved:
+        blocks = newobj["blocks"]
+        k, n = len(blocks), len(blocks[0]["atoms"])
+        xyz = np.array([[[af_float(c) for c in row] for row in b["xyz"]] for b in blocks], dtype=float).reshape(k, n, 3)
+        ens = isinstance(o, ml.ConformerEnsemble)
+        o.coords = xyz if ens else xyz[0]
+        if newobj["kind"] != "Struct":
+            chg = np.array([[q / 1e5 for q in b["q"]] for b in blocks], dtype=float).reshape(k, n)
+            o.atomic_charges = chg if ens else chg[0]
+
+
 # ----------------------------------------------------------------------------- abstraction of objects
 def _block(name, atoms, bonds, coords, charges):
     from molli.chem.atom import AtomType, AtomGeom
@@ -223,9 +255,10 @@ def _raise(ex):
     return {"out": "raise", "blocks": [], "exc": f"{type(ex).__name__}: {str(ex)[:120]}"}
 
 
-def run_case(o, route: str):
+def run_case(o, route: str, edit=None):
     """Build(observed) / write / read / write2 / read2 events of one real object; stops at the first exception.
-    Returns (events, number of molli calls, first text)."""
+    edit = (ops, object after the edits as the spec computed it): the same object is then edited and written / read
+    once more (events edit / write / read).  Returns (events, number of molli calls, first text)."""
     kind = kind_of(o)
     ev = [{"ev": "build", "obj": {"kind": kind, "blocks": abstract(o)}}]
     calls, text = 0, None
@@ -255,4 +288,25 @@ def run_case(o, route: str):
                 # (objects handed to run_case are in range), and not representable for TLC
                 ev.append({"ev": r, "route": route, "res": {"out": "unrepresentable", "blocks": [], "exc": str(ex)[:120]}})
                 break
+        if edit is not None and len(ev) == 5:
+            ops, newobj = edit
+            apply_edits(o, ops, newobj)
+            ev.append({"ev": "edit", "ops": ops, "obj": {"kind": kind, "blocks": abstract(o)}})
+            calls += 1
+            try:
+                t = _dumps(o)                                   # the object that was written before, now edited
+            except Exception as ex:
+                ev.append({"ev": "write", "res": _raise(ex)})
+                return ev, calls, text
+            ev.append({"ev": "write", "res": {"out": "ok", "blocks": tokenize(t)}})
+            calls += 1
+            try:
+                cur = load(t)
+            except Exception as ex:
+                ev.append({"ev": "read", "route": route, "res": _raise(ex)})
+                return ev, calls, text
+            try:
+                ev.append({"ev": "read", "route": route, "res": {"out": "ok", "blocks": abstract(cur)}})
+            except ValueError as ex:
+                ev.append({"ev": "read", "route": route, "res": {"out": "unrepresentable", "blocks": [], "exc": str(ex)[:120]}})
     return ev, calls, text
